@@ -979,18 +979,25 @@ impl AArch64Instruction {
     // architecture manual: https://developer.arm.com/documentation/ddi0487/latest/
     pub fn write_to_value(self, extracted_value: u64, negative: bool, dest: &mut [u8]) {
         let mut mask;
+        // The bits of the instruction's immediate field. They are cleared before the new value is
+        // ORed in, so that the result doesn't depend on what the field held before (inputs may
+        // carry non-zero immediates at relocated sites).
+        let field: u32;
         match self {
             // C6.2.13
             AArch64Instruction::Adr => {
+                field = (0x3 << 29) | (0x7_ffff << 5);
                 mask = ((extracted_value.extract_bit_range(0..2) as u32) << 29)
                     | ((extracted_value.extract_bit_range(2..32) as u32) << 5);
             }
             // C6.2.252, C6.2.254
             AArch64Instruction::Movkz => {
+                field = 0xffff << 5;
                 mask = (extracted_value as u32) << 5;
             }
             // C6.2.253, C6.2.254
             AArch64Instruction::Movnz => {
+                field = 0;
                 // Clear all bits except rd[4:0] and hw[22:21]
                 and_from_slice(dest, &0x0060_001F_u32.to_le_bytes());
                 let mut value = extracted_value as i64;
@@ -1007,32 +1014,40 @@ impl AArch64Instruction {
             }
             // C6.2.192
             AArch64Instruction::Ldr => {
+                field = 0x7_ffff << 5;
                 mask = (extracted_value as u32) << 5;
             }
             AArch64Instruction::LdrRegister => {
+                field = 0xfff << 10;
                 mask = (extracted_value as u32) << 10;
             }
             // C6.2.5
             AArch64Instruction::Add => {
+                field = 0xfff << 10;
                 mask = (extracted_value as u32) << 10;
             }
             // C7.2.208, C6.2.383
             AArch64Instruction::LdSt => {
+                field = 0xfff << 10;
                 mask = (extracted_value as u32) << 10;
             }
             // C6.2.438
             AArch64Instruction::TstBr => {
+                field = 0x3fff << 5;
                 mask = (extracted_value as u32) << 5;
             }
             // C6.2.34
             AArch64Instruction::Bcond => {
+                field = 0x7_ffff << 5;
                 mask = (extracted_value as u32) << 5;
             }
             // C6.2.33
             AArch64Instruction::JumpCall => {
+                field = 0x3ff_ffff;
                 mask = extracted_value as u32;
             }
             AArch64Instruction::MachOLow12 => {
+                field = 0;
                 // The relocation value is scaled by the access size for ADD, LDR and STR
                 // instructions. The following logic is taken from LLVM
                 // (encodePageOff12).
@@ -1049,7 +1064,8 @@ impl AArch64Instruction {
                 mask = (extracted_value as u32) >> scale;
             }
         }
-        // Read the original value and combine it with the prepared mask.
+        // Clear the field, then combine the original value with the prepared mask.
+        and_from_slice(dest, &(!field).to_le_bytes());
         or_from_slice(dest, &mask.to_le_bytes());
     }
 
